@@ -206,14 +206,7 @@ def main(argv=None):
     for n, r in results.items():
         o = byname[n]
         if o.kind == "smt":
-            if r.get("verdict") == "REFUTED":
-                # smt obligations replay their own counterexample against the real code and say so
-                if r.get("replayed"):
-                    violations.append((n, r.get("cex"), dict(exc=r.get("message"), holds=False), "smt-counterexample"))
-                else:
-                    harness_errors.append("smt counterexample of %s not reproduced: %s" % (n, r.get("message")))
             validated += int(r.get("validated", 0))
-            continue
         if r.get("verdict") == "REFUTED" and r.get("cex") is None:
             harness_errors.append("refuted without parsable counterexample: %s: %s" % (n, r.get("message", "")[:500]))
         if r.get("verdict") == "ERROR":
@@ -290,7 +283,7 @@ def main(argv=None):
                                "transitions = symbolic branch decisions taken along those paths + direct SMT queries; "
                                "solver_checks = z3 satisfiability checks issued",
                 functions_encoded=meta.get("functions", []),
-                bounds=meta.get("bounds", {}).get(tier, meta.get("bounds", "")),
+                bounds=(meta.get("bounds", "").get(tier, "") if isinstance(meta.get("bounds", ""), dict) else meta.get("bounds", "")),
                 outside_claim=meta.get("outside", ""),
                 stubs=meta.get("stubs", []),
                 solver_wall_s=round(t_solver, 1),
